@@ -133,6 +133,8 @@ class simplify_chained_calls(FuncADLNodeTransformer):
 
     def __init__(self):
         self._arg_stack = argument_stack()
+        # Parameters of the lambdas we are inside of (and that are not being called)
+        self._bound: List[str] = []
 
     def visit_Select_of_Select(self, parent: ast.Call, selection: ast.Lambda):
         r"""
@@ -168,6 +170,8 @@ class simplify_chained_calls(FuncADLNodeTransformer):
         source = args[0]
         func_f = args[1]
         assert isinstance(func_f, ast.Lambda)
+        # `func_g` moves inside `func_f`: make sure the argument of `func_f` can't hide its names
+        func_f = make_args_unique(func_f)
         func_g = selection
 
         lambda_select = lambda_body_replace(
@@ -243,6 +247,8 @@ class simplify_chained_calls(FuncADLNodeTransformer):
         assert isinstance(func_f, ast.Lambda)
         func_g = selection
 
+        # `func_g` moves inside `func_f`: make sure the argument of `func_f` can't hide its names
+        func_f = make_args_unique(func_f)
         captured_arg = func_f.args.args[0].arg
         captured_body = func_f.body
         new_select = function_call("SelectMany", [captured_body, func_g])
@@ -336,6 +342,8 @@ class simplify_chained_calls(FuncADLNodeTransformer):
         seq = args[0]
         func_f = args[1]
         assert isinstance(func_f, ast.Lambda)
+        # `func_g` moves inside `func_f`: make sure the argument of `func_f` can't hide its names
+        func_f = make_args_unique(func_f)
 
         func_g = filter
         lambda_where = lambda_body_replace(
@@ -437,6 +445,19 @@ class simplify_chained_calls(FuncADLNodeTransformer):
             return None
         return [given[n] for n in names]
 
+    def visit_Lambda(self, node: ast.Lambda):
+        """A lambda that is not being called: its arguments must not hide a name that an
+        expression we substitute into its body refers to."""
+        names = [p.arg for p in node.args.args]
+        if any(n in self._bound or self._arg_stack.mentions(n) for n in names):
+            node = make_args_unique(node)
+            names = [p.arg for p in node.args.args]
+        self._bound.extend(names)
+        try:
+            return self.generic_visit(node)
+        finally:
+            del self._bound[len(self._bound) - len(names) :]
+
     def visit_Call(self, call_node):
         """We are looking for cases where an argument is another function or expression.
         In that case, we want to try to get an evaluation of the argument, and replace it in the
@@ -450,11 +471,13 @@ class simplify_chained_calls(FuncADLNodeTransformer):
                 # Not a call we can evaluate here - leave it as it is.
                 return self.generic_visit(call_node)
             arg_asts = [self.visit(a) for a in given]
+            # Fresh argument names: nothing in the query can hide them or be hidden by them
+            func = make_args_unique(call_node.func)
             with stack_frame(self._arg_stack):
-                for a_name, arg in zip(call_node.func.args.args, arg_asts):
+                for a_name, arg in zip(func.args.args, arg_asts):
                     self._arg_stack.define_name(a_name.arg, arg)
                 # Now, evaluate the expression, and then lift it.
-                return self.visit(call_node.func.body)
+                return self.visit(func.body)
         elif _is_method_call_on_first(call_node):
             return self.select_method_call_on_first(call_node)
         else:
